@@ -34,9 +34,18 @@ func c10Multi(k int) string {
 
 func c10Profiles() []string {
 	// the last one parses but fails in code generation (undeclared prefix): an error for its caller, nothing for anyone else
-	return []string{PoolProfileMin, PoolProfileLevels, c10Multi(4), c10Multi(7), PoolProfileSpecial,
+	return []string{PoolProfileMin, PoolProfileLevels, c10Multi(4), c10Multi(7), PoolProfileSpecial, c10BuiltinCore, c10ShadowCore,
 		strings.Replace(PoolProfileMin, "targetClass: ex.Thing", "targetClass: acme.Thing", 1)}
 }
+
+// two tenants' profiles that spell their vocabulary with the same prefix name: one relies on the built-in prefix `core`,
+// the other declares `core` for a namespace of its own (profiles 5 and 6; document 9 holds nodes of both vocabularies)
+const c10BuiltinCore = "#%Validation Profile 1.0\nprofile: Builtin core\nviolation:\n  - named\nvalidations:\n  named:\n    targetClass: core.Thing\n    message: \"{{core.name}} needs a description\"\n    propertyConstraints:\n      core.description:\n        minCount: 1\n"
+const c10ShadowCore = "#%Validation Profile 1.0\nprofile: Own core\nprefixes:\n  core: http://tenant-b.example/core#\nviolation:\n  - named\nvalidations:\n  named:\n    targetClass: core.Thing\n    message: \"{{core.name}} needs a description\"\n    propertyConstraints:\n      core.description:\n        minCount: 1\n"
+const c10CoreData = `{"@graph":[{"@id":"http://example.org/d#amf1","@type":"http://a.ml/vocabularies/core#Thing","http://a.ml/vocabularies/core#name":"amf one"},
+ {"@id":"http://example.org/d#amf2","@type":"http://a.ml/vocabularies/core#Thing","http://a.ml/vocabularies/core#name":"amf two","http://a.ml/vocabularies/core#description":"d"},
+ {"@id":"http://example.org/d#own1","@type":"http://tenant-b.example/core#Thing","http://tenant-b.example/core#name":"own one","http://a.ml/vocabularies/core#description":"wrong vocabulary"},
+ {"@id":"http://example.org/d#own2","@type":"http://tenant-b.example/core#Thing","http://tenant-b.example/core#name":"own two","http://tenant-b.example/core#description":"d"}]}`
 
 func c10Profiles2(k int) string {
 	multi := func(k int) string {
@@ -81,7 +90,7 @@ func c10Datas() []string {
 	ctx := c10CtxPath()
 	named := fmt.Sprintf(`{"@context": {"@import": %q, "name": "ex:name"}, "@id": "http://example.org/d#imported-a", "@type": "Thing", "name": "A"}`, ctx)
 	unnamed := fmt.Sprintf(`{"@context": {"@import": %q}, "@id": "http://example.org/d#imported-b", "@type": "Thing", "name": "B"}`, ctx)
-	return []string{PoolDataGood, PoolDataBad, things, PoolDataEmpty, PoolDataGarbage, large(false), large(true), named, unnamed}
+	return []string{PoolDataGood, PoolDataBad, things, PoolDataEmpty, PoolDataGarbage, large(false), large(true), named, unnamed, c10CoreData}
 }
 
 func c10Configs() []config.ReportConfiguration {
@@ -161,7 +170,11 @@ func C10Load(seed int64, rounds int) {
 		} else if r.Intn(6) == 0 {
 			di = 7 + r.Intn(2) // the documents that import a context file
 		}
-		jobs = append(jobs, c10job{kinds[r.Intn(3)], r.Intn(len(profiles)), di, r.Intn(len(configs))})
+		pi := r.Intn(len(profiles))
+		if (pi == 5 || pi == 6) && r.Intn(3) != 0 {
+			di = 9 // the document holding both vocabularies called `core`
+		}
+		jobs = append(jobs, c10job{kinds[r.Intn(3)], pi, di, r.Intn(len(configs))})
 	}
 	// what each call returns when it runs alone
 	alone := map[c10job]string{}
@@ -222,50 +235,7 @@ func C10Load(seed int64, rounds int) {
 	// aligned rounds: the listener of every call holds its stage-start event until all 8 calls have reached the same
 	// stage, so the 8 calls enter that stage together (only the public event channel is used to steer them)
 	aligned := func(stage events.EventType, call func(w int, ch *chan events.Event) (string, error)) []string {
-		outs := make([]string, 8)
-		bar := make(chan struct{})
-		var arrived int32
-		var awg sync.WaitGroup
-		for w := 0; w < 8; w++ {
-			awg.Add(1)
-			go func(w int) {
-				defer awg.Done()
-				ch := make(chan events.Event)
-				fin := make(chan struct{})
-				go func() {
-					defer close(fin)
-					for ev := range ch {
-						if ev.EventType == stage {
-							if atomic.AddInt32(&arrived, 1) == 8 {
-								close(bar)
-							}
-							select {
-							case <-bar:
-							case <-time.After(10 * time.Second):
-							}
-						}
-					}
-				}()
-				o, err := func() (o string, err error) {
-					defer func() {
-						if r := recover(); r != nil {
-							err = fmt.Errorf("panic: %v", r)
-						}
-					}()
-					return call(w, &ch)
-				}()
-				if err != nil {
-					o = "error: " + err.Error()
-				}
-				outs[w] = o
-				select {
-				case <-fin:
-				case <-time.After(5 * time.Second):
-				}
-			}(w)
-		}
-		awg.Wait()
-		return outs
+		return alignedCalls(stage, 8, call)
 	}
 	things := datas[2]
 	genProfiles := []string{}
@@ -288,7 +258,25 @@ func C10Load(seed int64, rounds int) {
 		}
 		largeAlone = append(largeAlone, o)
 	}
+	// cold rounds: 8 calls submit the SAME profile text, one the process has never seen (a fresh comment), and enter Rego
+	// generation together; the profile has 40 sibling constraints and 10 alternatives written in descending order
+	coldAlone, err := pkg.ValidateWithConfiguration(coldProfile(40, "reference"), things, false, nil, clockA, configs[0])
+	if err != nil {
+		coldAlone = "error: " + err.Error()
+	}
 	for round := 0; round < rounds/2+2; round++ {
+		coldText := coldProfile(40, fmt.Sprintf("cold round %d", round))
+		couts := aligned(events.RegoGenerationStart, func(w int, ch *chan events.Event) (string, error) {
+			return pkg.ValidateWithConfiguration(coldText, things, false, ch, clockA, configs[0])
+		})
+		for _, o := range couts {
+			if o != coldAlone && len(mism) < 8 {
+				mism = append(mism, mismatch{c10job{Kind: fmt.Sprintf("validate-text, 8 calls submitting the same profile text (new to the process: 40 sibling constraints, 10 alternatives, a fresh comment `# cold round %d`) enter Rego generation together; alone = the same profile with another comment", round), Profile: -100, Data: 2}, coldAlone, o})
+			}
+		}
+		if o, err := pkg.ValidateWithConfiguration(coldText, things, false, nil, clockA, configs[0]); (err != nil || o != coldAlone) && len(mism) < 8 {
+			mism = append(mism, mismatch{c10job{Kind: fmt.Sprintf("validate-text alone, the profile text that 8 calls submitted together in cold round %d", round), Profile: -100, Data: 2}, coldAlone, o})
+		}
 		outs := aligned(events.RegoGenerationStart, func(w int, ch *chan events.Event) (string, error) {
 			return pkg.ValidateWithConfiguration(genProfiles[w], things, false, ch, clockA, configs[0])
 		})
@@ -324,13 +312,18 @@ func C10Load(seed int64, rounds int) {
 			mism = append(mism, mismatch{j2, want, got})
 		}
 	}
-	out, _ := json.Marshal(map[string]any{"jobs": len(jobs), "distinct_jobs": len(alone), "mismatches": mism})
+	// the two profiles that share a prefix name, alone at the end: the parent compares these with a fresh process's reports
+	prefixAlone := map[string]string{}
+	for _, pi := range []int{5, 6} {
+		prefixAlone[fmt.Sprint(pi)] = solo(c10job{Kind: "validate-text", Profile: pi, Data: 9, Config: 0})
+	}
+	out, _ := json.Marshal(map[string]any{"jobs": len(jobs), "distinct_jobs": len(alone), "mismatches": mism, "prefix_alone": prefixAlone})
 	fmt.Println(string(out))
 }
 
 func C10(e *core.Env) {
 	res := e.Res
-	res.Rule = "cases = concurrent calls: 8 goroutines x rounds of jobs drawn from {CompileProfile+ValidateCompiled, ValidateWithConfiguration from text, ValidateCompiledWithConfiguration sharing ONE compiled profile} x 6 profiles (one of which fails in code generation) x 9 documents (incl. two that @import one context file, unreadable, and two documents larger than 64 KiB over the same node ids, one conforming and one not) x 3 report configurations with different schema IRIs, in a -race build of the harness; every returned report / error is compared byte-wise (fixed clock) with what the same call returns when it runs alone, and every distinct call is repeated alone after the concurrent phase; aligned rounds: 8 calls whose listeners hold the stage-start event until all have reached it enter Rego generation together (8 different profiles) and enter normalisation together (two large documents), each compared with the call alone, followed by the same calls alone; any data race reported by the race detector is a violation; " +
+	res.Rule = "cases = concurrent calls: 8 goroutines x rounds of jobs drawn from {CompileProfile+ValidateCompiled, ValidateWithConfiguration from text, ValidateCompiledWithConfiguration sharing ONE compiled profile} x 8 profiles (one of which fails in code generation, two that use the prefix name `core` for different namespaces - their answers alone in the loaded process are compared with a fresh process's) x 10 documents (incl. two that @import one context file, unreadable, and two documents larger than 64 KiB over the same node ids, one conforming and one not) x 3 report configurations with different schema IRIs, in a -race build of the harness; every returned report / error is compared byte-wise (fixed clock) with what the same call returns when it runs alone, and every distinct call is repeated alone after the concurrent phase; aligned rounds: 8 calls whose listeners hold the stage-start event until all have reached it enter Rego generation together (8 different profiles; and 8 calls submitting ONE profile text new to the process, with 40 sibling constraints and 10 alternatives in descending order) and enter normalisation together (two large documents), each compared with the call alone, followed by the same calls alone; any data race reported by the race detector is a violation; " +
 		"non-trivial = the job compiles a profile or uses a non-default configuration; distinct by (kind, profile, data, configuration)"
 	raceBin := filepath.Join(e.Scratch, "verifh-race")
 	cmd := exec.Command("go", "build", "-race", "-o", raceBin, "./cmd/verifh")
@@ -359,6 +352,7 @@ func C10(e *core.Env) {
 			JobsN          int      `json:"jobs"`
 			DistinctN      int      `json:"distinct_jobs"`
 			Fatal          string
+			PrefixAlone    map[string]string `json:"prefix_alone"`
 			Mismatches     []struct {
 				Job        c10job
 				Alone, Got string
@@ -396,12 +390,34 @@ func C10(e *core.Env) {
 			ptext := ""
 			if m.Job.Profile >= 0 {
 				ptext = profiles[m.Job.Profile]
+			} else if m.Job.Profile == -100 {
+				ptext = coldProfile(40, "cold round <n>")
 			} else {
 				ptext = c10Multi(-1 - m.Job.Profile)
 			}
 			res.Violate("impl-violates-property", "a concurrent "+m.Job.Kind+" call returns something else than the same call alone",
 				map[string]any{"job": m.Job, "profile": ptext, "data": core.Trunc(datas[m.Job.Data], 3000), "configuration": fmt.Sprintf("%+v", configs[m.Job.Config]),
 					"alone": core.Trunc(m.Alone, 2500), "concurrent": core.Trunc(m.Got, 2500), "first_difference": firstDiff(m.Alone, m.Got), "seed": e.Seed + int64(run), "rounds": rounds})
+		}
+		// the profiles that share a prefix name: what the loaded process answers for each, alone, equals a fresh process's answer
+		for _, pi := range []int{5, 6} {
+			pf, df := filepath.Join(e.Scratch, "c10p.yaml"), filepath.Join(e.Scratch, "c10d.jsonld")
+			os.WriteFile(pf, []byte(profiles[pi]), 0o644)
+			os.WriteFile(df, []byte(datas[9]), 0o644)
+			self, _ := os.Executable()
+			fo, ferr := exec.Command(self, "oneshot", pf, df, "0").Output()
+			var fm map[string]string
+			if ferr != nil || json.Unmarshal(fo, &fm) != nil {
+				res.Violate("harness-error", fmt.Sprintf("fresh process failed: %v", ferr), map[string]any{"no_failing_input_found": true, "broken": "oneshot subprocess"})
+				continue
+			}
+			got := result.PrefixAlone[fmt.Sprint(pi)]
+			if got != fm["report"] {
+				res.Violate("impl-violates-property", "a validation made alone in a process that served other tenants' profiles (one of which uses the same prefix name for another namespace) differs from a fresh process's",
+					map[string]any{"profile": profiles[pi], "other_profile_served_by_the_process": profiles[11-pi], "data": datas[9], "loaded_process": core.Trunc(got, 2500), "fresh_process": core.Trunc(fm["report"], 2500),
+						"first_difference": firstDiff(fm["report"], got), "seed": e.Seed + int64(run), "rounds": rounds, "how": "verifh c10load: 8 goroutines of mixed jobs over 8 profiles, then this call alone; verifh oneshot: the same call in a fresh process"})
+			}
+			res.Case(fmt.Sprintf("shared-prefix-name|run%d|profile%d", run, pi), true)
 		}
 		res.Evaluations += result.JobsN
 		res.DistinctNontrivial += result.DistinctN
